@@ -10,6 +10,11 @@ shared-table mutations, thread starts, joins and exits are compared, together wi
 results, the final tables and the cache directory. The oracle restates the property over the
 public API (results against the graph specification, no exception, no deadlock, identity of
 repeated loads, cache files of failed fetches untouched) and does not use the model.
+
+Streams: the original one (five named graphs, one bad node, cache mode empty / warm / stale), the
+widened one (`wide_case`: the whole cache pre-state, all flavours of unfetchable / unparsable, random
+DAGs, fragments, more entry points; oracle-only where the model does not reach) and a small one on
+real threads (`real_case`).
 """
 import hashlib
 import io
@@ -41,48 +46,293 @@ def graph_names():
     return sorted(GRAPHS)
 
 
-def doc_xml(name, includes, urls):
+DAY = 86400                      # the property's "refreshed after a day"
+UNFETCHABLE = ("missing", "dir", "badenc")           # the fetch itself fails
+UNPARSABLE = ("garbage", "empty", "notodml", "oldver")   # fetched, but no odML 1.1 document
+PARSABLE = ("doc", "nosec")                          # nosec: a valid document without sections
+# fragments of an include (`url#path`): first section by absolute path, the extra section by
+# absolute / relative path, a path that does not exist, an empty path
+FRAGS_OK = ("m", "x", "rel")
+FRAGS_BAD = ("zzz", "")
+
+
+def kind_of(case, name):
+    return case["kinds"].get(name, "doc")
+
+
+def model_kind(kind):
+    """The Lean model knows doc / missing / garbage; the flavours map onto these."""
+    if kind in UNFETCHABLE:
+        return "missing"
+    if kind in UNPARSABLE:
+        return "garbage"
+    return kind
+
+
+def frag_of(case, name, k):
+    lst = (case.get("frag") or {}).get(name) or []
+    return lst[k] if k < len(lst) else None
+
+
+def frag_path(frag, target):
+    return {"m": "/m_" + target, "x": "/x_" + target, "rel": "x_" + target,
+            "zzz": "/zzz", "": ""}[frag]
+
+
+def doc_xml(name, includes, urls, opts=None):
     """
     First section m_<name> carries property p_<name> and the first include; every further
     include k lives in its own top-level section i<k> with property q_<name>_<k>.
+    opts (all optional): pfx = prefix of the first property ("p_", an older version of the
+    resource has "o_"), frags = fragment per include, extra = a trailing section x_<name> with
+    property xp_<name>, repo = [url, "doc"|"sec"] a <repository> element, nonascii = values
+    carry non-ASCII text incl. U+2028.
     """
+    opts = opts or {}
+    tail = u" \u00e9\u00df\u2028\u4e2d" if opts.get("nonascii") else u""
+    frags = opts.get("frags") or []
+
     def prop(pn):
-        return "<property><name>%s</name><value>[%s]</value><type>string</type></property>" % (pn, pn)
-    first = ""
+        return u"<property><name>%s</name><value>[%s%s]</value><type>string</type></property>" % (pn, pn, tail)
+
+    def inc(k):
+        frag = frags[k] if k < len(frags) else None
+        target = includes[k]
+        return u"<include>%s%s</include>" % (urls[target], "" if frag is None else "#" + frag_path(frag, target))
+    repo = opts.get("repo")
+    first = u""
+    if repo and repo[1] == "sec":
+        first += u"<repository>%s</repository>" % repo[0]
     if includes:
-        first = "<include>%s</include>" % urls[includes[0]]
-    secs = "<section><name>m_%s</name><type>t</type>%s%s</section>" % (name, prop("p_" + name), first)
-    for k, inc in enumerate(includes[1:], 1):
-        secs += "<section><name>i%d</name><type>t</type>%s<include>%s</include></section>" \
-                % (k, prop("q_%s_%d" % (name, k)), urls[inc])
-    return '<?xml version="1.0" encoding="UTF-8"?>\n<odML version="1.1">%s</odML>\n' % secs
+        first += inc(0)
+    secs = u"<section><name>m_%s</name><type>t</type>%s%s</section>" % (
+        name, prop(opts.get("pfx", "p_") + name), first)
+    for k in range(1, len(includes)):
+        secs += u"<section><name>i%d</name><type>t</type>%s%s</section>" \
+                % (k, prop("q_%s_%d" % (name, k)), inc(k))
+    if opts.get("extra"):
+        secs += u"<section><name>x_%s</name><type>t</type>%s</section>" % (name, prop("xp_" + name))
+    head = u""
+    if repo and repo[1] == "doc":
+        head = u"<repository>%s</repository>" % repo[0]
+    return u'<?xml version="1.0" encoding="UTF-8"?>\n<odML version="1.1">%s%s</odML>\n' % (head, secs)
 
 
-def spec_ok(case, name):
-    return case["kinds"].get(name, "doc") == "doc"
-
-
-def spec_first_props(case, name):
-    """Property names of the first section of the fully resolved document `name`."""
-    out = ["p_" + name]
-    incs = case["graph"][name]
-    if incs and spec_ok(case, incs[0]):
-        out += spec_first_props(case, incs[0])
-    return out
-
-
-def spec_doc(case, name):
-    """Expected canonical dump of load(name): None or list of [section, sorted props]."""
-    if not spec_ok(case, name):
+def resource_bytes(case, name, kind, urls, pfx="p_"):
+    """Content of the resource `name` as a file (None: no regular file - missing or a directory)."""
+    if kind in ("missing", "dir"):
         return None
-    incs = case["graph"][name]
-    out = [["m_" + name, sorted(spec_first_props(case, name))]]
-    for k, inc in enumerate(incs[1:], 1):
-        props = ["q_%s_%d" % (name, k)]
-        if spec_ok(case, inc):
-            props += spec_first_props(case, inc)
-        out.append(["i%d" % k, sorted(props)])
+    if kind == "garbage":
+        return b"this is not odML <<<"
+    if kind == "empty":
+        return b""
+    if kind == "notodml":
+        return b"<foo><bar>1</bar></foo>"
+    if kind == "nosec":
+        return b'<?xml version="1.0" encoding="UTF-8"?>\n<odML version="1.1"></odML>\n'
+    opts = {"pfx": pfx, "frags": (case.get("frag") or {}).get(name), "extra": case.get("extra"),
+            "nonascii": case.get("nonascii")}
+    repo = (case.get("repo") or {}).get(name)
+    if repo:
+        opts["repo"] = [urls[repo[0]], repo[1]]
+    text = doc_xml(name, case["graph"][name], urls, opts)
+    if kind == "oldver":
+        return text.replace(u'<odML version="1.1">', u'<odML version="1.0">').encode("utf-8")
+    if kind == "badenc":
+        # bytes that are not UTF-8 (a Latin-1 file): the fetch fails while decoding
+        return text.replace(u"[p_", u"[\u00e9p_").replace(u"[o_", u"[\u00e9o_").encode("latin-1", "replace")
+    return text.encode("utf-8")
+
+
+# -- cache pre-state -----------------------------------------------------------------------
+def cache_files(case):
+    """
+    node -> {"age": seconds, "old": "same"|"text"|"garbage", "via": "term"|"tpl"}: the copies an
+    earlier session left in the cache directory. `old` = what the resource was when it was
+    cached: as now (a now unfetchable one was a document then), an older text of the document,
+    or something unparsable. The older cases give a mode only: warm = an hour ago, whatever can
+    be fetched; stale = two days ago, when everything was there.
+    """
+    if "files" in case:
+        return case["files"]
+    mode = case.get("cache", "empty")
+    out = {}
+    for n in sorted(case["graph"]):
+        if mode == "warm" and kind_of(case, n) != "missing":
+            out[n] = {"age": 3600, "old": "same"}
+        elif mode == "stale":
+            out[n] = {"age": 2 * DAY, "old": "same"}
     return out
+
+
+def expired(entry):
+    return entry["age"] > DAY
+
+
+def cached_version(case, name, entry):
+    """(kind, prefix) of the cached copy of `name`."""
+    kind = kind_of(case, name)
+    if entry.get("old", "same") == "text":
+        return ("doc", "o_")
+    if entry.get("old", "same") == "garbage":
+        return ("garbage", "p_")
+    return ("doc" if kind in UNFETCHABLE else kind, "p_")
+
+
+def views(case):
+    """
+    The admissible readings of "what parsing the resource directly gives": node -> (kind, prefix).
+    A resource without a cache copy, or with a copy older than a day, has to be fetched: only its
+    current content counts. For a copy younger than a day that differs from the resource (the
+    resource changed or vanished since) the statement is ambiguous - cache_load is documented to
+    serve the copy, the property speaks of the resource - so both are accepted (weaker reading).
+    """
+    base = dict((n, (kind_of(case, n), "p_")) for n in case["graph"])
+    out = [base]
+    for n, entry in sorted(cache_files(case).items()):
+        if expired(entry):
+            continue
+        cv = cached_version(case, n, entry)
+        if cv != base[n]:
+            out = out + [dict(v, **{n: cv}) for v in out]
+    return out
+
+
+def ambiguous(case):
+    return len(views(case)) > 1
+
+
+def modelled(case):
+    """False: the Lean model does not cover this case, the oracle alone decides."""
+    if ambiguous(case) or case.get("repo") or case.get("stream") == "real":
+        return False
+    if any(kind_of(case, n) == "nosec" for n in case["graph"]):
+        return False
+    for lst in (case.get("frag") or {}).values():
+        if any(f not in (None, "m") for f in lst):
+            return False
+    return True
+
+
+# -- specification ---------------------------------------------------------------------------
+def spec_ok(case, name, view=None):
+    kind = view[name][0] if view else kind_of(case, name)
+    return kind in PARSABLE
+
+
+def spec_merged(case, name, k, view=None):
+    """Property names the k-th include of `name` merges into its section."""
+    target = case["graph"][name][k]
+    if not spec_ok(case, target, view):
+        return []
+    kind = view[target][0] if view else kind_of(case, target)
+    frag = frag_of(case, name, k)
+    if kind == "nosec" or frag in FRAGS_BAD:
+        return []            # nothing to merge (weaker reading: the include stays unresolved)
+    if frag in ("x", "rel"):
+        return ["xp_" + target]
+    return spec_first_props(case, target, view)
+
+
+def spec_first_props(case, name, view=None):
+    """Property names of the first section of the fully resolved document `name`."""
+    out = [(view[name][1] if view else "p_") + name]
+    if case["graph"][name]:
+        out += spec_merged(case, name, 0, view)
+    return out
+
+
+def spec_doc(case, name, view=None):
+    """Expected canonical dump of load(name): None or list of [section, sorted props]."""
+    if not spec_ok(case, name, view):
+        return None
+    if (view[name][0] if view else kind_of(case, name)) == "nosec":
+        return []
+    incs = case["graph"][name]
+    out = [["m_" + name, sorted(spec_first_props(case, name, view))]]
+    for k in range(1, len(incs)):
+        out.append(["i%d" % k, sorted(["q_%s_%d" % (name, k)] + spec_merged(case, name, k, view))])
+    if case.get("extra"):
+        out.append(["x_" + name, ["xp_" + name]])
+    return out
+
+
+def versions(case, name):
+    """The admissible (kind, prefix) readings of one resource, the current one first (see views)."""
+    out = []
+    for v in views(case):
+        if v[name] not in out:
+            out.append(v[name])
+    return out
+
+
+def merged_options(case, name, k):
+    """
+    The admissible property sets the k-th include of `name` merges. With an ambiguous target (a
+    young cache copy that differs from the resource) every *occurrence* of an include may see
+    either reading: a refresh() that runs while a loader is resolving the includes of a document
+    switches from the copies to the resources in the middle. Without ambiguity: one set.
+    """
+    target = case["graph"][name][k]
+    frag = frag_of(case, name, k)
+    out = []
+    for kind, pfx in versions(case, target):
+        if kind not in PARSABLE or kind == "nosec" or frag in FRAGS_BAD:
+            opts = [[]]
+        elif frag in ("x", "rel"):
+            opts = [["xp_" + target]]
+        else:
+            opts = first_options(case, target, pfx)
+        for o in opts:
+            if sorted(o) not in out:
+                out.append(sorted(o))
+    return out
+
+
+def first_options(case, name, pfx):
+    if not case["graph"][name]:
+        return [[pfx + name]]
+    return [sorted([pfx + name] + m) for m in merged_options(case, name, 0)]
+
+
+def admissible_doc(case, name, dump):
+    """Is `dump` (see dump_doc) an admissible result of load(name)?"""
+    for kind, pfx in versions(case, name):
+        if kind not in PARSABLE:
+            if dump is None:
+                return True
+            continue
+        if kind == "nosec":
+            if dump == []:
+                return True
+            continue
+        incs = case["graph"][name]
+        want = [("m_" + name, first_options(case, name, pfx))]
+        for k in range(1, len(incs)):
+            want.append(("i%d" % k, [sorted(["q_%s_%d" % (name, k)] + m) for m in merged_options(case, name, k)]))
+        if case.get("extra"):
+            want.append(("x_" + name, [["xp_" + name]]))
+        if not isinstance(dump, list) or len(dump) != len(want):
+            continue
+        if all(isinstance(sec, list) and len(sec) == 2 and sec[0] == wname and sec[1] in wopts
+               for sec, (wname, wopts) in zip(dump, want)):
+            return True
+    return False
+
+
+def admissible_include(case, name, props):
+    """Is `props` admissible for a fresh section after `section.include = name`?"""
+    for kind, pfx in versions(case, name):
+        if kind not in PARSABLE or kind == "nosec":
+            if props == []:
+                return True
+        elif props in first_options(case, name, pfx):
+            return True
+    return False
+
+
+def loadable(case, name):
+    return any(kind in PARSABLE for kind, _pfx in versions(case, name))
 
 
 def dump_doc(doc):
@@ -110,6 +360,83 @@ class Handles(object):
         return len(self.objs) - 1
 
 
+# ----------------------------------------------------------------------------- real threads
+class _RealRec(object):
+    def __init__(self, tid, exc=None):
+        self.tid = tid
+        self.exc = exc
+
+
+class RealRun(object):
+    """
+    Stand-in for the Scheduler when a case runs on real, unpatched threads (stream "real"): the
+    operating system picks the interleaving (with a very short switch interval), the caller
+    program runs on this thread, afterwards every thread the library started is joined. A thread
+    that is still alive after the wall-clock limit counts as "blocks forever".
+    """
+
+    def __init__(self):
+        self.chosen = []
+        self.steps = []
+        self.enabled_sets = []
+        self.recs = [_RealRec(0)]
+
+    def run(self, fn, timeout=20.0):
+        import threading
+        before = set(threading.enumerate())
+        old_hook = threading.excepthook
+        old_switch = sys.getswitchinterval()
+        died = []
+
+        def hook(args):
+            died.append(args.exc_value)
+        threading.excepthook = hook
+        sys.setswitchinterval(1e-6)
+        try:
+            fn()
+            deadline = time.time() + timeout
+            while True:
+                alive = [t for t in threading.enumerate() if t not in before and t.is_alive()]
+                if not alive:
+                    break
+                if time.time() > deadline:
+                    raise S.Deadlock("%d loader thread(s) still running %.0f s after the caller finished"
+                                     % (len(alive), timeout))
+                alive[0].join(max(0.05, deadline - time.time()))
+        finally:
+            sys.setswitchinterval(old_switch)
+            threading.excepthook = old_hook
+            for i, exc in enumerate(died):
+                self.recs.append(_RealRec(i + 1, exc))
+
+
+class RealPatched(object):
+    """A fresh handler instance with its own `loading` table, bound into the module like Patched does."""
+
+    def __init__(self, module, inst_name, rebind=("load", "deferred_load", "refresh"), base=None):
+        self.module, self.inst_name, self.rebind, self.base = module, inst_name, rebind, base
+        self.saved = {}
+
+    def __enter__(self):
+        mod = self.module
+        base = type(getattr(mod, self.inst_name)) if self.inst_name else self.base
+        sub = type("Real" + base.__name__, (base,), {"loading": {}})
+        inst = sub()
+        if self.inst_name:
+            self.saved[self.inst_name] = getattr(mod, self.inst_name)
+            setattr(mod, self.inst_name, inst)
+        for name in self.rebind:
+            if hasattr(mod, name) and hasattr(inst, name):
+                self.saved[name] = getattr(mod, name)
+                setattr(mod, name, getattr(inst, name))
+        return inst
+
+    def __exit__(self, *exc):
+        for name, val in self.saved.items():
+            setattr(self.module, name, val)
+        return False
+
+
 # ----------------------------------------------------------------------------- one scheduled run
 def run_scenario(case, picks=None, rng=None):
     """
@@ -128,54 +455,74 @@ def run_scenario(case, picks=None, rng=None):
         docs = os.path.join(priv, "docs")
         os.makedirs(docs)
         names = sorted(case["graph"])
-        urls = dict((n, "file://" + os.path.join(docs, n + ".xml")) for n in names)
-        back = dict((u, n) for n, u in urls.items())
-
-        def write_all(everything):
+        # file names: plain, or with a blank and non-ASCII letters (the URL carries them verbatim)
+        fname = dict((n, (u"%s \u00f6\u4e2d.xml" % n) if case.get("odd_names") else n + ".xml") for n in names)
+        if case.get("same_base"):
+            # every resource has the same base name, in a directory of its own: the copies in the
+            # cache differ in the part of their name that is derived from the whole URL
             for n in names:
-                kind = case["kinds"].get(n, "doc")
-                path = os.path.join(docs, n + ".xml")
-                if kind == "missing" and not everything:
-                    if os.path.exists(path):
-                        os.remove(path)
-                    continue
-                with io.open(path, "w", encoding="utf-8") as fh:
-                    fh.write(u"this is not odML <<<" if kind == "garbage"
-                             else doc_xml(n, case["graph"][n], urls))
+                os.makedirs(os.path.join(docs, n))
+            fname = dict((n, os.path.join(n, "t.xml")) for n in names)
+        urls = dict((n, "file://" + os.path.join(docs, fname[n])) for n in names)
+        back = dict((u, n) for n, u in urls.items())
+        base_of = dict((fname[n], n) for n in names)
+        digest_of = dict((hashlib.md5(urls[n].encode("utf-8")).hexdigest(), n) for n in names)
+
+        def put(n, kind, pfx="p_"):
+            path = os.path.join(docs, fname[n])
+            if os.path.isdir(path):
+                shutil.rmtree(path)
+            elif os.path.exists(path):
+                os.remove(path)
+            if kind == "dir":
+                os.makedirs(path)
+                return
+            data = resource_bytes(case, n, kind, urls, pfx)
+            if data is not None:
+                with io.open(path, "wb") as fh:
+                    fh.write(data)
 
         cache_dir = os.path.join(priv, "odml.cache")
         before = {}
-        mode = case.get("cache", "empty")
-        if mode in ("warm", "stale"):
-            # a previous session fetched the files: stale = long ago, when the now missing
-            # resources still existed; warm = recently (missing ones were never there)
-            write_all(everything=(mode == "stale"))
+        # an earlier session fetched some of the resources (through the library's own cache_load,
+        # so the naming of the copies is the library's); afterwards the copies age and the
+        # resources take their current state
+        pre = cache_files(case)
+        now = time.time()
+        for n in names:
+            if n not in pre:
+                continue
+            ckind, cpfx = cached_version(case, n, pre[n])
+            put(n, ckind, cpfx)
+            have = set(os.listdir(cache_dir)) if os.path.isdir(cache_dir) else set()
             with fw.quiet():
-                for n in names:
-                    try:
-                        fobj = T.cache_load(urls[n])
-                        if hasattr(fobj, "close"):
-                            fobj.close()
-                    except Exception:
-                        pass
-            age = 2 * 86400 if mode == "stale" else 3600
-            now = time.time()
+                try:
+                    fobj = (P.cache_load if pre[n].get("via") == "tpl" else T.cache_load)(urls[n])
+                    if hasattr(fobj, "close"):
+                        fobj.close()
+                except Exception:
+                    pass
             if os.path.isdir(cache_dir):
-                for f in os.listdir(cache_dir):
-                    os.utime(os.path.join(cache_dir, f), (now - age, now - age))
-        write_all(everything=False)
+                for f in set(os.listdir(cache_dir)) - have:
+                    stamp = now - pre[n]["age"]
+                    os.utime(os.path.join(cache_dir, f), (stamp, stamp))
+        for n in names:
+            put(n, kind_of(case, n))
         if os.path.isdir(cache_dir):
             for f in os.listdir(cache_dir):
                 st = os.stat(os.path.join(cache_dir, f))
                 before[f] = st.st_mtime_ns
 
-        sch = S.Scheduler(picks=picks, rng=rng)
+        real = case.get("stream") == "real"
+        sch = RealRun() if real else S.Scheduler(picks=picks, rng=rng)
         key = lambda u: back.get(u, str(u))
         handles = Handles()
         results = []
 
-        with S.Patched(sch, T, "terminologies", "term", key) as term_inst, \
-                S.Patched(sch, P, None, "tpl", key, rebind=(), base=P.TemplateHandler) as tpl_inst:
+        with (RealPatched(T, "terminologies") if real
+              else S.Patched(sch, T, "terminologies", "term", key)) as term_inst, \
+                (RealPatched(P, None, rebind=(), base=P.TemplateHandler) if real
+                 else S.Patched(sch, P, None, "tpl", key, rebind=(), base=P.TemplateHandler)) as tpl_inst:
             insts = {"term": term_inst, "tpl": tpl_inst}
             order = ["term", "tpl"]
 
@@ -204,6 +551,30 @@ def run_scenario(case, picks=None, rng=None):
                             d = odml.Document()
                             d.repository = urls[name]
                             results.append({"op": [op, tab, name]})
+                        elif op == "sec_repository":
+                            d = odml.Document()
+                            s = odml.Section(name="user", type="t", parent=d)
+                            s.repository = urls[name]
+                            results.append({"op": [op, tab, name]})
+                        elif op == "equivalent":
+                            # Document.repository, then Document.get_terminology_equivalent
+                            d = odml.Document()
+                            d.repository = urls[name]
+                            r = d.get_terminology_equivalent()
+                            results.append({"op": [op, tab, name], "doc": dump_doc(r),
+                                            "obj": handles.of(r)})
+                        elif op == "sec_equivalent":
+                            d = odml.Document()
+                            s = odml.Section(name="user", type="t", parent=d)
+                            s.repository = urls[name]
+                            r = s.get_terminology_equivalent()
+                            results.append({"op": [op, tab, name], "found": r is not None})
+                        elif op == "include_orphan":
+                            # a section without a document: the include is recorded, the load deferred
+                            s = odml.Section(name="user", type="t")
+                            s.include = urls[name]
+                            results.append({"op": [op, tab, name],
+                                            "props": sorted(p.name for p in s.properties)})
                         else:
                             raise ValueError(op)
                     except S.SchedAbort:
@@ -215,7 +586,7 @@ def run_scenario(case, picks=None, rng=None):
             detail = None
             try:
                 with fw.quiet():
-                    sch.run(caller, timeout=RUN_TIMEOUT)
+                    sch.run(caller, timeout=3 * RUN_TIMEOUT if real else RUN_TIMEOUT)
             except S.Deadlock as exc:
                 outcome, detail = "deadlock", str(exc)
             except S.StepLimit as exc:
@@ -233,16 +604,24 @@ def run_scenario(case, picks=None, rng=None):
                 tables[tab] = {"loaded": ent,
                                "loading": sorted(key(u) for u in dict.keys(type(inst).loading))}
 
+        unmapped = []
+
+        def node_of(f):
+            head, _dot, base = f.partition(".")
+            if case.get("same_base"):
+                if head not in digest_of:
+                    unmapped.append(f)      # another naming scheme: the copies cannot be told apart
+                return digest_of.get(head, f)
+            return base_of.get(base or f, base or f)
+
         cache = {}
         if os.path.isdir(cache_dir):
             for f in sorted(os.listdir(cache_dir)):
-                nm = f.split(".", 1)[1][:-4] if "." in f else f
                 st = os.stat(os.path.join(cache_dir, f))
-                cache[nm] = {"rewritten": before.get(f) != st.st_mtime_ns, "existed": f in before}
+                cache[node_of(f)] = {"rewritten": before.get(f) != st.st_mtime_ns, "existed": f in before}
         for f in before:
-            nm = f.split(".", 1)[1][:-4]
-            if nm not in cache:
-                cache[nm] = {"deleted": True}
+            if node_of(f) not in cache:
+                cache[node_of(f)] = {"deleted": True}
 
         obs = {
             "outcome": outcome, "detail": detail,
@@ -250,7 +629,8 @@ def run_scenario(case, picks=None, rng=None):
             "steps": sch.steps,
             "results": results,
             "tables": tables,
-            "cache": cache,
+            "cache": {} if unmapped else cache,
+            "cache_unmapped": bool(unmapped),
             "thread_errors": [[r.tid, fw.exc_name(r.exc)] for r in sch.recs[1:] if r.exc is not None],
             "threads": len(sch.recs),
             "enabled": sch.enabled_sets,
@@ -270,7 +650,7 @@ def tree_first_props(tree, names):
     return out
 
 
-def tree_dump(tree, names):
+def tree_dump(tree, names, extra=False):
     """Model content (Tree) -> the canonical dump the implementation side produces."""
     if tree is None:
         return None
@@ -281,30 +661,30 @@ def tree_dump(tree, names):
         if kid is not None:
             props += tree_first_props(kid, names)
         out.append(["i%d" % k, sorted(props)])
+    if extra:
+        out.append(["x_" + n, ["xp_" + n]])
     return out
+
+
+# caller operations -> the model's program (the setters are deferred_load [+ load])
+MODEL_OPS = {"load": ["load"], "deferred": ["deferred"], "refresh": ["refresh"],
+             "include": ["deferred", "load"], "repository": ["deferred"],
+             "sec_repository": ["deferred"], "equivalent": ["deferred", "load"],
+             "sec_equivalent": ["deferred", "load"], "include_orphan": ["deferred"]}
 
 
 def world_request(case):
     names = sorted(case["graph"])
     idx = dict((n, i) for i, n in enumerate(names))
-    graph = [[idx[n], case["kinds"].get(n, "doc"), [idx[m] for m in case["graph"][n]]] for n in names]
-    mode = case.get("cache", "empty")
+    graph = [[idx[n], model_kind(kind_of(case, n)), [idx[m] for m in case["graph"][n]]] for n in names]
     cache = []
-    for n in names:
-        kind = case["kinds"].get(n, "doc")
-        if mode == "warm" and kind != "missing":
-            cache.append([idx[n], "fresh"])
-        elif mode == "stale":
-            cache.append([idx[n], "stale"])
+    for n, entry in sorted(cache_files(case).items()):
+        cache.append([idx[n], "stale" if expired(entry) else "fresh"])
     prog = []
     for op, tab, name in case["prog"]:
         tpl = tab == "tpl"
-        if op in ("load", "deferred", "refresh"):
-            prog.append([op, tpl, idx[name]])
-        elif op == "include":
-            prog += [["deferred", False, idx[name]], ["load", False, idx[name]]]
-        elif op == "repository":
-            prog.append(["deferred", False, idx[name]])
+        for mop in MODEL_OPS[op]:
+            prog.append([mop, tpl and op in ("load", "deferred", "refresh"), idx[name]])
     return {"p": "C18", "graph": graph, "cache": cache, "prog": prog}, names, idx
 
 
@@ -373,7 +753,17 @@ class C18(fw.Check):
                  "cache empty / warm / stale; quick: seeded random schedules; thorough: one schedule per "
                  "transition of the model's reachable state graph for the small graphs. A case is "
                  "non-trivial when at least one loader thread ran; distinct = distinct canonical JSON "
-                 "of the case.")
+                 "of the case. Widened stream: random include DAGs over five resources (deeper chains, a "
+                 "target included twice, ten and more includes in one document), any node missing / a "
+                 "directory / not UTF-8 / unparsable in four ways / a document without sections, a cache copy "
+                 "per resource of any age from seconds to over a year and on both sides of the one-day limit, "
+                 "written through either handler, the resource unchanged / changed / unparsable / gone since, "
+                 "includes with #fragments, <repository> elements inside resources, non-ASCII content and file "
+                 "names, equal base names, and the Section.repository / get_terminology_equivalent / "
+                 "include-without-document entry points; cases the model does not cover (a young copy that "
+                 "differs from its resource, fragments, repositories inside resources, documents without "
+                 "sections) are decided by the oracle alone. Real stream: such cases with identical young "
+                 "copies on real threads under the operating system's scheduler, oracle-only.")
 
     def __init__(self):
         self.rule = self.base_rule
@@ -423,6 +813,171 @@ class C18(fw.Check):
         return {"g": gname, "graph": graph, "kinds": kinds, "cache": cache, "prog": prog,
                 "sched": {"seed": rng.randrange(1 << 30)}}
 
+    # ages of a cache copy in seconds: just written, the clock of the writer was ahead, an hour,
+    # either side of the one-day limit (the margin is far above the run time of a case), between
+    # one and two days, whole days, a month, more than a year
+    AGES = [0, -3600, 60, 3600, 12 * 3600, DAY - 3600, DAY - 600, DAY + 600, DAY + 3600, 30 * 3600,
+            36 * 3600, 47 * 3600, 2 * DAY - 600, 2 * DAY + 600, 3 * DAY, 7 * DAY, 30 * DAY, 400 * DAY]
+    NODES = ["R", "A", "B", "D", "E"]
+
+    def random_graph(self, rng):
+        """A named graph or a random DAG over R < A < B < D < E (includes point to later nodes)."""
+        r = rng.random()
+        if r < 0.4:
+            gname = rng.choice(graph_names())
+            return gname, dict((n, list(v)) for n, v in GRAPHS[gname].items())
+        if r < 0.45:
+            # many includes in one document (two-digit section numbers), two leaves
+            return "bush", {"R": [rng.choice(["A", "D"]) for _ in range(rng.randrange(10, 14))],
+                            "A": ["D"] if rng.random() < 0.5 else [], "D": []}
+        nodes = ["R"] + sorted(rng.sample(self.NODES[1:], rng.randrange(1, 5)), key=self.NODES.index)
+        graph = {}
+        for i, n in enumerate(nodes):
+            later = nodes[i + 1:]
+            incs = []
+            if later:
+                r = rng.random()
+                count = 0 if r < 0.15 else 1 if r < 0.6 else 2 if r < 0.9 else 3
+                if i == 0:
+                    count = max(count, 1)
+                for _ in range(count):
+                    incs.append(rng.choice(later))     # the same target may be included twice
+                if rng.random() < 0.5:
+                    incs.sort(key=nodes.index)
+            graph[n] = incs
+        if rng.random() < 0.3:                         # a chain through all nodes
+            for i in range(len(nodes) - 1):
+                if nodes[i + 1] not in graph[nodes[i]]:
+                    graph[nodes[i]].insert(0, nodes[i + 1])
+        return "dag%d" % len(nodes), graph
+
+    def random_prog(self, rng, names, wide_ops):
+        """wide_ops: also the operations added for the widened stream."""
+        prog = []
+        pre = ["deferred", "deferred", "repository"] + (["sec_repository", "include_orphan"] if wide_ops else [])
+        for _ in range(rng.randrange(0, 4)):
+            prog.append([rng.choice(pre), "term", rng.choice(names)])
+        if rng.random() < 0.2:
+            prog.append(["deferred", "tpl", rng.choice(names) if wide_ops else "R"])
+        for _ in range(rng.randrange(1, 5)):
+            r2 = rng.random()
+            if r2 < 0.45:
+                prog.append(["load", "term", rng.choice(["R", "R", rng.choice(names)])])
+            elif r2 < 0.55:
+                prog.append(["load", "tpl", rng.choice(["R", rng.choice(names)])])
+            elif r2 < 0.65:
+                prog.append(["include", "term", rng.choice(names)])
+            elif r2 < 0.75:
+                prog.append(["refresh", "term", rng.choice(["R", rng.choice(names)])])
+            elif r2 < 0.85:
+                prog.append([rng.choice(["equivalent", "equivalent", "sec_equivalent"]), "term",
+                             rng.choice(names)])
+            else:
+                prog.append([rng.choice(pre), "term", rng.choice(names)])
+        prog.append(["load", "term", "R"])
+        if rng.random() < 0.3:
+            prog.append(["load", "term", rng.choice(names)])
+        return prog
+
+    def wide_case(self, rng):
+        """
+        The widened stream: every dimension of the cache pre-state (a copy per resource or none,
+        its age anywhere from seconds to a year and on both sides of the one-day limit, written by
+        either handler, the resource the same / changed / unparsable / gone since), every flavour
+        of "cannot be fetched or parsed" on any node, random DAGs (deeper chains, a target
+        included twice), includes with fragments, a document without sections, <repository>
+        elements inside resources, non-ASCII content and file names, and the remaining setters
+        and getters that reach the loader.
+        """
+        gname, graph = self.random_graph(rng)
+        names = sorted(graph)
+        case = {"g": gname, "graph": graph, "kinds": {}, "stream": "wide"}
+        # kinds
+        r = rng.random()
+        bad = 0 if r < 0.4 else 1 if r < 0.85 else 2
+        flavours = ["missing", "missing", "garbage", "garbage", "dir", "badenc", "empty", "notodml", "oldver"]
+        for n in rng.sample(names, min(bad, len(names))):
+            case["kinds"][n] = rng.choice(flavours)
+        sinks = [n for n in names if not graph[n] and n not in case["kinds"]]
+        special = rng.random()
+        if sinks and special < 0.04:
+            case["kinds"][rng.choice(sinks)] = "nosec"          # oracle-only
+        # cache pre-state
+        r = rng.random()
+        if r < 0.2:
+            files = {}
+        else:
+            files = {}
+            # one age for all, or an age per resource
+            common = rng.choice(self.AGES) if rng.random() < 0.4 else None
+            for n in names:
+                if rng.random() < 0.8:
+                    age = common if common is not None and rng.random() < 0.8 else rng.choice(self.AGES)
+                    r3 = rng.random()
+                    old = "same" if r3 < 0.45 else "text" if r3 < 0.9 else "garbage"
+                    ent = {"age": age, "old": old}
+                    if rng.random() < 0.2:
+                        ent["via"] = "tpl"
+                    files[n] = ent
+        case["files"] = files
+        case["cache"] = "files"
+        # shape of the resources
+        if rng.random() < 0.3:
+            case["extra"] = True
+        if rng.random() < 0.3:
+            case["nonascii"] = True
+        r = rng.random()
+        if r < 0.2:
+            case["odd_names"] = True
+        elif r < 0.35:
+            case["same_base"] = True
+        r = rng.random()
+        if r < 0.3:
+            frag = {}
+            for n in names:
+                if graph[n] and rng.random() < 0.6:
+                    pool = ["m", "m", None] + (["x", "rel"] if case.get("extra") else [])
+                    frag[n] = [rng.choice(pool) for _ in graph[n]]
+            if special > 0.96 and any(graph[m] for m in names):
+                n = rng.choice([m for m in names if graph[m]])
+                lst = frag.get(n) or [None] * len(graph[n])
+                lst[rng.randrange(len(lst))] = rng.choice(FRAGS_BAD)     # oracle-only, known finding
+                frag[n] = lst
+            if frag:
+                case["frag"] = frag
+        if rng.random() < 0.12:
+            repo = {}
+            for n in rng.sample(names, rng.randrange(1, 3) if len(names) > 1 else 1):
+                repo[n] = [rng.choice(names), rng.choice(["doc", "sec"])]    # oracle-only
+            case["repo"] = repo
+        if rng.random() < 0.35:
+            pname = rng.choice(sorted(p for p in PROGS if prog_fits(PROGS[p], graph)))
+            case["prog"] = [list(op) for op in PROGS[pname]]
+        else:
+            case["prog"] = self.random_prog(rng, names, True)
+        case["sched"] = {"seed": rng.randrange(1 << 30)}
+        return case
+
+    def real_case(self, rng):
+        """
+        A case for real threads. The property's interleavings are those of the accesses to the
+        shared tables and of thread start / join / exit; cache_load counts as one step. On real
+        threads two cache_loads of one URL can overlap *inside* the file operations (one truncates
+        the copy the other is about to parse - this does happen on the unchanged tree and is
+        outside the property's granularity, see design.d/C18.md). So the real-thread cases never
+        write a cache file: every fetchable resource has a young, identical copy, unfetchable ones
+        have none, nothing is refreshed. What remains is what the property is about: the races on
+        the tables, with the real lock, Thread and join.
+        """
+        case = self.wide_case(rng) if rng.random() < 0.7 else self.random_case(rng)
+        case["stream"] = "real"
+        case["cache"] = "files"
+        case["files"] = dict((n, {"age": rng.choice([60, 3600, 12 * 3600, DAY - 3600]), "old": "same"})
+                             for n in sorted(case["graph"]) if kind_of(case, n) not in UNFETCHABLE)
+        case["prog"] = [op for op in case["prog"] if op[0] != "refresh"]
+        case["sched"] = {"os": rng.randrange(1 << 30)}
+        return case
+
     def explored_cases(self, budget):
         """One schedule per transition of the model's reachable state graph (thorough tier)."""
         try:
@@ -437,10 +992,20 @@ class C18(fw.Check):
                         combos.append((gname, kind, pname, "empty"))
         combos += [("diamond", "doc", "refresh", "warm"), ("chain", "missing", "refresh", "stale"),
                    ("chain", "doc", "templates", "empty"), ("fan", "garbage", "setters", "stale")]
+        # copies on both sides of the one-day limit, the resources changed since (named by the ages)
+        combos += [("chain", "doc", "deferred_root", {"R": [3600, "same"], "A": [36 * 3600, "text"],
+                                                      "D": [25 * 3600, "text"]}),
+                   ("diamond", "missing", "two_loaders", {"R": [DAY + 600, "text"], "A": [DAY - 600, "same"],
+                                                          "B": [47 * 3600, "same"], "D": [30 * 3600, "same"]}),
+                   ("fan", "garbage", "leaf_race", {"A": [2 * DAY - 600, "garbage"], "D": [DAY + 3600, "text"]})]
         out = []
         for gname, kind, pname, cache in combos:
             case = {"g": gname, "graph": GRAPHS[gname], "kinds": {} if kind == "doc" else {LEAF[gname]: kind},
                     "cache": cache, "prog": [list(op) for op in PROGS[pname]]}
+            if isinstance(cache, dict):
+                case["files"] = dict((n, {"age": a, "old": o}) for n, (a, o) in cache.items())
+                case["cache"] = cache = "files-" + "-".join("%s%dh" % (n, a // 3600) for n, (a, o) in sorted(cache.items()))
+                assert modelled(case)
             req, _names, _idx = world_request(case)
             try:
                 ans = model.ask([dict(req, op="explore", limit=60000)])[0]
@@ -462,6 +1027,9 @@ class C18(fw.Check):
     def generate(self, tier, rng):
         n = 1000 if tier == "quick" else 4000
         cases = [self.random_case(rng) for _ in range(n)]
+        cases += [self.wide_case(rng) for _ in range(1000 if tier == "quick" else 4000)]
+        # the same kinds of cases on real threads, scheduled by the operating system (oracle-only)
+        cases += [self.real_case(rng) for _ in range(120 if tier == "quick" else 600)]
         if tier == "thorough":
             cases += self.explored_cases(60000)
         return cases
@@ -477,11 +1045,16 @@ class C18(fw.Check):
     def model_requests(self, case, obs):
         if obs.get("outcome") == "hang":
             raise fw.Infra("C18 harness-side hang (no scheduling point reached): %s" % obs.get("detail"))
+        if not modelled(case):
+            return []          # oracle-only: the model does not cover this case
         req, _names, _idx = world_request(case)
         return [dict(req, op="run", picks=obs["picks"], max=4000)]
 
     def compare(self, case, obs, answers):
+        if not answers:
+            return []
         ans = answers[0]
+        extra = bool(case.get("extra"))
         _req, names, idx = world_request(case)
         out = []
         if ans["outcome"] != obs["outcome"]:
@@ -513,7 +1086,7 @@ class C18(fw.Check):
         pos = 0
         for r in obs["results"]:
             op = r["op"][0]
-            width = 2 if op == "include" else 1
+            width = len(MODEL_OPS[op])
             ms = mres[pos:pos + width]
             pos += width
             if len(ms) < width:
@@ -524,13 +1097,19 @@ class C18(fw.Check):
                            % (r["raised"], r["op"]))
                 continue
             m = ms[-1]
-            if op == "load":
-                want = tree_dump(m["val"]["doc"], names)
+            if op in ("load", "equivalent"):
+                want = tree_dump(m["val"]["doc"], names, extra)
                 if want != r["doc"]:
                     out.append("%s: model %s, implementation %s" % (r["op"], want, r["doc"]))
                 if ri.of(r["obj"]) != rm.of(m["val"]["obj"]):
                     out.append("%s: object identity pattern differs (model obj %s, implementation obj %s)"
                                % (r["op"], m["val"]["obj"], r["obj"]))
+            elif op == "sec_equivalent":
+                if r["found"] and m["val"]["doc"] is None:
+                    out.append("%s: found an equivalent although the model's load gives None" % r["op"])
+            elif op == "include_orphan":
+                if r["props"]:
+                    out.append("%s: a section without a document merged %s" % (r["op"], r["props"]))
             elif op == "include":
                 tree = m["val"]["doc"]
                 want = sorted(tree_first_props(tree, names)) if tree is not None else []
@@ -546,16 +1125,16 @@ class C18(fw.Check):
                 out.append("%s table keys: model %s, implementation %s" % (tab, sorted(ment), sorted(ient)))
                 continue
             for n in sorted(ment):
-                if tree_dump(ment[n]["doc"], names) != ient[n]["doc"]:
+                if tree_dump(ment[n]["doc"], names, extra) != ient[n]["doc"]:
                     out.append("%s[%s]: model %s, implementation %s"
-                               % (tab, n, tree_dump(ment[n]["doc"], names), ient[n]["doc"]))
+                               % (tab, n, tree_dump(ment[n]["doc"], names, extra), ient[n]["doc"]))
                 if ri.of(ient[n]["obj"]) != rm.of(ment[n]["obj"]):
                     out.append("%s[%s]: object identity pattern differs" % (tab, n))
             mload = sorted(names[u] for u in ans["tables"][tab]["loading"])
             if mload != obs["tables"][tab]["loading"]:
                 out.append("%s.loading leftovers: model %s, implementation %s"
                            % (tab, mload, obs["tables"][tab]["loading"]))
-        for u, st, wcount in ans["cache"]:
+        for u, st, wcount in ([] if obs.get("cache_unmapped") else ans["cache"]):
             n = names[u]
             ic = obs["cache"].get(n)
             if (st != "absent") != (ic is not None and not ic.get("deleted")):
@@ -582,34 +1161,48 @@ class C18(fw.Check):
             op, tab, name = r["op"]
             if "raised" in r:
                 out.append("%s(%s) raised %s under %s" % (op, name, r["raised"], sched))
+                if op == "refresh":
+                    last = {}      # it may have cleared the table before it raised
                 continue
             if op == "refresh":
                 last = {}
-            elif op == "load":
-                want = spec_doc(case, name)
-                if r["doc"] != want:
-                    out.append("load(%s) returned %s, direct parse + finalize gives %s under %s"
-                               % (name, r["doc"], want, sched))
+            elif op in ("load", "equivalent"):
+                # Document.get_terminology_equivalent is load(repository) of the terminology handler
+                if not admissible_doc(case, name, r["doc"]):
+                    out.append("%s(%s) returned %s, direct parse + finalize gives %s under %s"
+                               % (op, name, r["doc"], spec_doc(case, name), sched))
                 if r["obj"] is not None:
                     if (tab, name) in last and last[(tab, name)] != r["obj"]:
-                        out.append("load(%s) returned a different object than the previous load "
-                                   "(no refresh in between) under %s" % (name, sched))
+                        out.append("%s(%s) returned a different object than the previous load "
+                                   "(no refresh in between) under %s" % (op, name, sched))
                     last[(tab, name)] = r["obj"]
             elif op == "include":
-                want = sorted(spec_first_props(case, name)) if spec_ok(case, name) else []
-                if r["props"] != want:
+                if not admissible_include(case, name, r["props"]):
+                    want = sorted(spec_first_props(case, name)) \
+                        if spec_ok(case, name) and kind_of(case, name) != "nosec" else []
                     out.append("include of %s merged %s, expected %s under %s" % (name, r["props"], want, sched))
+            elif op == "include_orphan":
+                if r["props"]:
+                    out.append("include of %s into a section without a document merged %s under %s"
+                               % (name, r["props"], sched))
+            elif op == "sec_equivalent":
+                # the equivalent is looked up in load(repository): there is none in a None
+                if r["found"] and not loadable(case, name):
+                    out.append("get_terminology_equivalent found a section in unloadable %s under %s"
+                               % (name, sched))
         if obs["outcome"] == "ok":
             for tab in ("term", "tpl"):
                 for n, ent in sorted(obs["tables"][tab]["loaded"].items()):
-                    if ent["doc"] != spec_doc(case, n):
+                    if not admissible_doc(case, n, ent["doc"]):
                         out.append("%s table holds %s for %s, direct parse + finalize gives %s under %s"
                                    % (tab, ent["doc"], n, spec_doc(case, n), sched))
                     if (tab, n) in last and ent["obj"] != last[(tab, n)]:
                         out.append("the cached object of %s is not the one the last load returned under %s"
                                    % (n, sched))
         for n, ent in sorted(obs["cache"].items()):
-            if case["kinds"].get(n, "doc") == "missing":
+            # a resource that is not there (no file / a directory): the fetch fails. (A resource that
+            # is not UTF-8 fails while decoding - whether that still is "the fetch" is left open.)
+            if kind_of(case, n) in ("missing", "dir"):
                 if ent.get("deleted"):
                     out.append("cache file of unfetchable %s was deleted under %s" % (n, sched))
                 elif not ent["existed"]:
@@ -618,9 +1211,52 @@ class C18(fw.Check):
                     out.append("failed fetch of %s overwrote its cache file under %s" % (n, sched))
         return out[:6]
 
+    # -- known findings ---------------------------------------------------------
+    def finding_key(self, case, obs, failure):
+        """
+        Two narrow shapes (both reproduce sequentially on the unchanged tree): an include whose
+        target parses but has no section (`term.sections[0]` -> IndexError) and an include with a
+        fragment naming no section of its target (`get_section_by_path` -> ValueError). Only the
+        failure that names this exception in a case that has such an include is classified.
+        """
+        vs = views(case)
+
+        def may_be(n, kinds):
+            return any(v[n][0] in kinds for v in vs)      # now, or in a cache copy that is served
+
+        def has_include(pred):
+            for n, incs in case["graph"].items():
+                if not may_be(n, ("doc",)):
+                    continue
+                for k, target in enumerate(incs):
+                    if may_be(target, PARSABLE) and pred(n, k, target):
+                        return True
+            return False
+        if " raised IndexError " in failure or " died with IndexError " in failure:
+            if has_include(lambda n, k, t: kind_of(case, t) == "nosec"
+                           and frag_of(case, n, k) is None):
+                return "include-of-document-without-sections-indexerror"
+            if any(kind_of(case, name) == "nosec" and op == "include"
+                   for op, _tab, name in case["prog"]):
+                return "include-of-document-without-sections-indexerror"
+        if " raised ValueError " in failure or " died with ValueError " in failure:
+            if has_include(lambda n, k, t: frag_of(case, n, k) in FRAGS_BAD
+                           or (frag_of(case, n, k) is not None and kind_of(case, t) == "nosec")):
+                return "include-fragment-without-target-valueerror"
+        return None
+
     def tag(self, case, obs):
         kinds = ",".join("%s=%s" % kv for kv in sorted(case["kinds"].items())) or "all-doc"
-        return ("%s:%s:%s:%s" % (case.get("g", "?"), kinds, case.get("cache", "empty"),
+        cache = case.get("cache", "empty")
+        if "files" in case:
+            ents = case["files"].values()
+            cache = "files[%s%s%s%s]" % ("f" if any(not expired(e) for e in ents) else "",
+                                        "s" if any(expired(e) for e in ents) else "",
+                                        "c" if any(e.get("old", "same") != "same" for e in ents) else "",
+                                        "" if modelled(case) else ",oracle-only")
+        if case.get("stream") == "real":
+            return ("real:%s:%s:%s:%s" % (case.get("g", "?"), kinds, cache, obs.get("outcome", "?")), True)
+        return ("%s:%s:%s:%s" % (case.get("g", "?"), kinds, cache,
                                  obs.get("outcome", "?")), obs.get("threads", 1) > 1)
 
 
